@@ -148,7 +148,7 @@ def run(run, thorough):
         alone = [solo.get((i, ai)) for ai in range(len(metas[i]['args']))]
         judge(run, scn, metas[i], res, alone)
         jobs.append(('put', 'x', res['steps'][0], {'scenario': scn}))
-    engine.run_monitors(run, 'put-monitor', jobs, 'the put-discipline monitor (Coq) rejects the implementation trace', 'put-discipline')
+    engine.run_monitors(run, 'put-monitor', jobs, 'the put-discipline monitor (Coq) rejects the implementation trace', 'put-discipline', silent=True)
     if out:
         run.sample({'level': 'state', 'argv': [esc(a) for a in out[0][0]['steps'][0]['argv']], 'kinds': [a['kind'] for a in metas[idx[id(out[0][0])]]['args']]})
 
